@@ -103,9 +103,10 @@ pub fn shape(kb: &Kb, st: &Store) -> Shape {
 pub fn gen_case(s: &mut Src, force_monotone: Option<bool>) -> (Kb, Store, GoalQ, Cfg) {
     let cfg = gen_cfg(s, false);
     let max_rules = if cfg.max_depth >= 5 { 5 } else { 8 };
-    let kb = gen_kb(s, max_rules, force_monotone);
-    let st = crate::bc::gen_store(s, &kb);
+    let mut kb = gen_kb(s, max_rules, force_monotone);
+    let mut st = crate::bc::gen_store(s, &kb);
     let goal = gen_goal(s, &kb);
+    apply_str_style(s, &mut kb, &mut st);
     (kb, st, goal, cfg)
 }
 
